@@ -256,7 +256,10 @@ func main() {
 	r.Rule = fmt.Sprintf("templates = all concatenations of <=%d tokens over %d tokens (%d distinct strings) x %d group vectors "+
 		"(nil, 0, 1, 2, %d groups; values over %d strings of the path alphabet incl. empty) x %d queries (resolveSource) / %d path names (resolveDest); "+
 		"distinct = (function, sequence of reference piece kinds, group count, class of inserted value)",
-		maxTok, len(tokens), len(templates), len(gvecs), big, len(values), len(queries), len(pathNames))
+		maxTok, len(tokens), len(templates), len(gvecs), big, len(values), len(queries), len(pathNames)) +
+		"; HISTORY: every sequence of <=4 (thorough 5) Start(onDemand,query)/Stop cycles over {on demand, not} x 4 (thorough 5) queries incl. the empty one " +
+		"on ONE real staticsources.Handler (recording source instance) for 3 templates, each activation's ResolvedSource compared with the statement's " +
+		"resolution for the CURRENT query (= a fresh handler's); every sequence of <=3 cycles {3 templates x ReloadConf before/after Start} on ONE real forward.Manager"
 
 	var judged, skipUndoc, skipNoGroup, skipStraddle, straddleDiffers, insideCases, changed atomic.Int64
 
@@ -400,6 +403,10 @@ func main() {
 		}
 	}
 
+	// history dimension: ONE real handler / forward manager over sequences of activations
+	historySources(r)
+	historyForward(r)
+
 	r.Set("judged_cases", judged.Load())
 	r.Set("judged_cases_result_differs_from_template", changed.Load())
 	r.Set("judged_cases_with_placeholder_inside_inserted_value", insideCases.Load())
@@ -417,7 +424,10 @@ func main() {
 			"placeholders a function does not document ($MTX_PATH in sources, $MTX_QUERY in destinations)",
 		"not judged: placeholder-looking strings that arise partly from template text and partly from an inserted value (e.g. template '$G$G2' with G2='1'); " +
 			"the statement only speaks of placeholders of the template and of placeholders inside an inserted value",
-		"only the pure functions resolveSource/resolveDest are driven, not the handlers that call them",
+		"template alphabet: only the pure functions resolveSource/resolveDest are driven; the handlers that call them are driven by the history part with 3 templates each",
+		"history part: the protocol client of the static source handler is replaced by a recording instance (shim VerifC42SetInstance); Start/Stop/run and resolveSource are the real ones. " +
+			"Re-activation after a source error (5 s retry pause) and ReloadConf of a running source are not in the history alphabet",
+		"history part, forward: the resolved destination is read from the handler's own 'forwarding to' log line (credentials/fragment are stripped there; the templates have none)",
 	}
 	r.Finish()
 }
